@@ -135,10 +135,10 @@ impl<'a, Version: VersionTrait, Purpose: PurposeTrait> Paseto<'a, Version, Purpo
 
     /* BEGIN PRIVATE FUNCTIONS */
     pub(crate) fn format_token(&self, encrypted_payload: &str) -> String {
-        let footer = self.footer.map(|f| f.encode());
-        match footer {
-            Some(f) => format!("{}{}.{}", self.header, encrypted_payload, f),
-            None => format!("{}{}", self.header, encrypted_payload),
+        //an empty footer is equivalent to no footer: the footer segment is only written for a non-empty footer
+        match self.footer {
+            Some(f) if !f.as_ref().is_empty() => format!("{}{}.{}", self.header, encrypted_payload, f.encode()),
+            _ => format!("{}{}", self.header, encrypted_payload),
         }
     }
 
